@@ -13,6 +13,13 @@ use super::{
     vulnerability_report::generate_vulnerability_report,
 };
 
+//A category has findings if at least one line is listed for one of its patterns
+fn has_findings<T>(findings: &HashMap<T, Vec<(String, BTreeSet<LineNumber>)>>) -> bool {
+    findings
+        .values()
+        .any(|files| files.iter().any(|(_, lines)| !lines.is_empty()))
+}
+
 pub fn generate_report(
     vulnerabilities: HashMap<Vulnerability, Vec<(String, BTreeSet<LineNumber>)>>,
     optimizations: HashMap<Optimization, Vec<(String, BTreeSet<LineNumber>)>>,
@@ -20,17 +27,17 @@ pub fn generate_report(
 ) {
     let mut solstat_report = String::from("");
 
-    if vulnerabilities.len() > 0 {
+    if has_findings(&vulnerabilities) {
         solstat_report.push_str(&generate_vulnerability_report(vulnerabilities));
         solstat_report.push_str("\n\n");
     }
 
-    if optimizations.len() > 0 {
+    if has_findings(&optimizations) {
         solstat_report.push_str(&generate_optimization_report(optimizations));
         solstat_report.push_str("\n\n");
     }
 
-    if qa.len() > 0 {
+    if has_findings(&qa) {
         solstat_report.push_str(&generate_qa_report(qa));
         solstat_report.push_str("\n\n");
     }
